@@ -5,15 +5,30 @@
    db.NewMemoryDBFromProof, InMemoryTrie.Get) over the node codec of C07 and the database model
    of C04; tied to the Go code by props/C05 (honest and adversarial node sets).
 
-   Soundness is proved for every node set.  Completeness (Verify accepts every pair of the state
-   with the generated proof) is checked by the correspondence harness on every generated proof
-   and refuted for the pinned tree below; its general proof is not part of this development:
-     forall t ks k v, In k ks -> lookup t (nibbles_of_bytes k) = Some v ->
-       generate ... t ks = Ok nodes -> verify ... nodes (root t) k v = Ok tt. *)
+   Both halves are proved for the repaired code: completeness for every trie, key set and present
+   key (C05_complete), soundness for every node set (C05_sound).  The pinned tree violates both
+   (C05_pinned_refuted). *)
 From Common Require Import Bytes Outcome Blake2b.
 From TrieCodec Require Import Codec View Db ProofsDecode ProofsDb.
-From C05 Require Import Model ProofsSound.
+From C05 Require Import Model ProofsSound ProofsInj ProofsGen ProofsComplete.
 Local Open Scope N_scope.
+
+(* Completeness.  For every well-formed state trie t (either version: any mix of inline and hashed
+   values, inlined and hashed children), every key set ks for which Generate succeeds and every
+   requested key k that is present with value v: Verify (fixes C05-1..3) accepts (k, v) and
+   (k, empty) with the generated proof under the root hash of t — the proof trie rebuilt by
+   loadProof contains the whole path of k and, for a value stored by hash, the value itself; the
+   recursion never runs out of the fuel the model gives it.  [inj_on]: H does not collide on the
+   strings of t (node encodings and hashed values). *)
+Theorem C05_complete :
+  forall (H : list byte -> list byte), (forall x, length (H x) = 32%nat) ->
+  forall st dfix gx t ks nodes k v value,
+  wf_node t = true -> inj_on H (strings_of H t) ->
+  generate H true true (Some t) ks = Ok nodes -> In k ks ->
+  lookup t (nibbles_of_bytes k) = Some v -> (value = v \/ value = []) ->
+  verify H st dfix true true gx nodes (H (encode H t)) k value = Ok tt.
+Proof. exact verify_generated. Qed.
+Print Assumptions C05_complete.
 
 (* Soundness.  Whatever proof items are supplied (omitted, duplicated, foreign, altered, reordered
    nodes), if Verify (with fixes/C05-2, C02-get-exhausted-key-nested) accepts (key, value) under the
